@@ -734,13 +734,13 @@ def gen_fault_spec(rng, chk, strace_ok, k):
     here = D + '/' if D else ''
     mode = 'fault-kill' if strace_ok and rng.random() < 0.2 else 'fault-fsize'
     cross = mode == 'fault-fsize' and rng.random() < 0.25        # the appended block crosses the limit: cut in the middle
-    names = rng.sample(DATA, 4)
-    f0, f1, f2, f3 = [here + x for x in names]
-    other = ('c/' if D != 'c' else 'd/') + names[0]
+    names = rng.sample(DATA, 5)                                  # distinct basenames: away from the anchored-shadow region K12
+    f0, f1, f2, f3 = [here + x for x in names[:4]]
+    other = 'c/' + names[4]
     files = [f0, f1, f2, here + 'sub2/' + names[3], other]
     gis = {D: big_user_lines(n * 1024 * 5 // 4 if not cross else n * 1024 - 900)}
     if rng.random() < 0.3: gis['' if D else 'c'] = '*.tmp\n'
-    cmds = [('track', [f0, f1], []) if rng.random() < 0.6 else ('track', [here + '*' + ext_of(f0), f1], [])]
+    cmds = [('track', [f0, f1], []) if rng.random() < 0.6 or ext_of(f0) == ext_of(f2) else ('track', [here + '*' + ext_of(f0), f1], [])]
     if rng.random() < 0.4: cmds.append(('track', [other], []))
     r = rng.random()
     if r < 0.30: inner = ('track', [f2], ['--no-commit'] if rng.random() < 0.3 else [])
